@@ -112,7 +112,7 @@ Definition c_route (ops : list op) (outs : list bytes) (kind : N)
            (files : list (N * bytes)) (streams : list (N * bytes)) : N :=
   let '(s, xs) := run init ops in
   if negb ((length xs =? length outs)%nat && forallb (fun p => beq_bytes (out_code (fst p)) (snd p)) (combine xs outs)) then 1%N
-  else if negb (N.eqb (kind_code (tgt s)) kind) then 2%N
+  else if negb (N.eqb (kind_code (tgt s)) kind) then 5%N
   else if negb (forallb (fun p => beq_bytes (w_file (wld s) (fst p)) (snd p)) files) then 3%N
   else if negb (forallb (fun p => beq_bytes (w_stream (wld s) (fst p)) (snd p)) streams) then 4%N
   else 0%N.
